@@ -154,3 +154,12 @@ def near_limit(rng):
     """A coefficient within 2 of +-M or of 2^127 boundaries (clamped to domain)."""
     c = M - rng.randrange(0, 3)
     return -c if rng.random() < 0.5 else c
+
+
+def wrap_twin(a, k):
+    """The i128 value a * 10^k would wrap to (two's complement); None if it does not wrap or leaves the domain."""
+    v = a * P10[k]
+    if -(M + 1) <= v <= M:
+        return None
+    w = ((v + (1 << 127)) % (1 << 128)) - (1 << 127)
+    return w if abs(w) <= M else None
